@@ -62,6 +62,8 @@ type Contract struct {
 	File     string
 	Line     int
 	Reason   string // for trusted: why
+	ParamNames []string // for functype/iface contracts: names of the parameters
+	Like     string // functype contract whose clauses are included (self = this function)
 }
 
 type Pred struct {
@@ -90,6 +92,7 @@ type Specs struct {
 	Preds     map[string]*Pred     // pkgpath::name and bare name fallback
 	SpecFns   map[string]*SpecFn
 	Axioms    []Axiom
+	GlobalInv []Axiom // per package: holds after init, globals it mentions are never written again
 	Tables    []*TableSpec
 }
 
@@ -327,7 +330,7 @@ func (sp *Specs) loadSpecFile(path, pkgPath string) error {
 		switch word {
 		case "pkg":
 			pkgPath = rest
-		case "func", "extern", "trusted":
+		case "func", "extern", "trusted", "functype", "iface":
 			key := rest
 			reason := ""
 			if i := strings.Index(rest, " -- "); i >= 0 {
@@ -341,6 +344,18 @@ func (sp *Specs) loadSpecFile(path, pkgPath string) error {
 			full := key
 			if pkgPath != "" && !cur.Extern {
 				full = pkgPath + "::" + key
+			}
+			if word == "functype" {
+				full = "functype:" + key
+				if pkgPath != "" && !strings.Contains(key, "/") {
+					full = "functype:" + pkgPath + "." + key
+				}
+			}
+			if word == "iface" {
+				full = "iface:" + key
+				if pkgPath != "" && !strings.Contains(key, "/") {
+					full = "iface:" + pkgPath + "." + key
+				}
 			}
 			if _, dup := sp.Contracts[full]; dup {
 				return fail(fmt.Errorf("duplicate contract %s", full))
@@ -415,6 +430,10 @@ func (sp *Specs) loadSpecFile(path, pkgPath string) error {
 				}
 				curLoop.Invariants = append(curLoop.Invariants, c)
 			}
+		case "params":
+			cur.ParamNames = strings.Fields(strings.ReplaceAll(rest, ",", " "))
+		case "like":
+			cur.Like = rest
 		case "noreturn":
 			cur.NoReturn = true
 		case "nosafety":
@@ -459,6 +478,10 @@ func (sp *Specs) loadSpecFile(path, pkgPath string) error {
 			}
 			kind := fs[idx]
 			body := strings.TrimSpace(strings.SplitN(rest, " "+kind+" ", 2)[1])
+			if i := strings.Index(kind, "["); i > 0 {
+				body = kind[i:] + " " + body
+				kind = kind[:i]
+			}
 			gs := GhostStmt{Kind: kind, After: after}
 			if kind == "set" {
 				parts := strings.SplitN(body, "=", 2)
@@ -517,6 +540,12 @@ func (sp *Specs) loadSpecFile(path, pkgPath string) error {
 			if _, ok := sp.SpecFns[f.Name]; !ok {
 				sp.SpecFns[f.Name] = f
 			}
+		case "globalinv":
+			c, err := parseClause(rest, lineNo)
+			if err != nil {
+				return fail(err)
+			}
+			sp.GlobalInv = append(sp.GlobalInv, Axiom{C: c, PkgPath: pkgPath})
 		case "axiom":
 			c, err := parseClause(rest, lineNo)
 			if err != nil {
@@ -528,4 +557,32 @@ func (sp *Specs) loadSpecFile(path, pkgPath string) error {
 		}
 	}
 	return sc.Err()
+}
+
+// resolveLikes copies the clauses of function-type contracts into the
+// contracts that declare `like <type>`.
+func (sp *Specs) resolveLikes() error {
+	for k, c := range sp.Contracts {
+		if c.Like == "" {
+			continue
+		}
+		key := "functype:" + c.Like
+		if !strings.Contains(c.Like, "/") && !strings.Contains(c.Like, ".") {
+			key = "functype:" + c.PkgPath + "." + c.Like
+		}
+		ft := sp.Contracts[key]
+		if ft == nil {
+			return fmt.Errorf("%s: like %s: no such functype contract (%s)", k, c.Like, key)
+		}
+		c.Requires = append(append([]Clause{}, ft.Requires...), c.Requires...)
+		c.Ensures = append(append([]Clause{}, ft.Ensures...), c.Ensures...)
+		if len(c.Modifies) == 0 && !c.ModAll {
+			c.Modifies = ft.Modifies
+			c.ModAll = ft.ModAll
+		}
+		if len(c.Props) == 0 {
+			c.Props = ft.Props
+		}
+	}
+	return nil
 }
